@@ -1176,8 +1176,15 @@ class C09(Check):
                 bad(prefix + 'small-box', f'{what}: box of {c["points"]} is not the box of {pts}')
             return
         if degenerate(pts):
-            # three or more points on one straight line (fix fc690f6): the hull is the segment between
-            # the extremes: vertices are input points, same box, every input point on the segment
+            # three or more DISTINCT points on one straight line are outside the quantifier ("collections ... whose
+            # points do not all lie on one straight line (plus the 1- and 2-point cases), with duplicates"): whether
+            # the answer lists the two ends only or every point along the segment is not stated, so it is not judged
+            # (false alarm of probe 2, behaviour_preserving/C09-collinear-keeps-points-bp; DESIGN §12.9).  The model
+            # still mirrors what the code does there, so a change shows as a broken correspondence.
+            if len(set(tuple(p) for p in pts)) > 2:
+                return
+            # at most two distinct points, repeated (a zero-height line box; fix fc690f6): the hull is the segment
+            # between them: vertices are input points, same box, every input point on the segment
             if 'ok' not in res:
                 bad(prefix + 'collinear-rejected', f'{what}: points on one line rejected with {res}')
                 return
@@ -1263,6 +1270,8 @@ class C09(Check):
             pts = inp['points']
             if pts:
                 exp = None
+                if degenerate(pts) and len(set(map(tuple, pts))) > 2:
+                    return fs       # outside the quantifier, see _judge_hull
                 if degenerate(pts):
                     lo, hi = min(map(tuple, pts)), max(map(tuple, pts))
                     exp = [list(lo)] if lo == hi else [list(lo), list(hi)]
